@@ -161,7 +161,10 @@ def _py_build(r, memo):
     elif k == 'func':
         coef = [float(F(x)) for x in r[1]]
         expr = ' + '.join('%r*t**%d' % (a, i) for i, a in enumerate(coef)) or '0'
-        w = W.FunctionWaveform(ExpressionScalar(expr), _tm(r[2]), CH[r[3]])
+        if len(r) > 4 and r[4]:
+            w = W.FunctionWaveform.from_expression(ExpressionScalar(expr), _tm(r[2]), CH[r[3]])   # constant expression -> ConstantWaveform
+        else:
+            w = W.FunctionWaveform(ExpressionScalar(expr), _tm(r[2]), CH[r[3]])
     elif k == 'seq':
         subs = [py_build(x, memo) for x in r[2]]
         w = W.SequenceWaveform.from_sequence(subs) if r[1] else W.SequenceWaveform(subs)
@@ -346,6 +349,10 @@ def run_impl(case):
                          'dur': vlib.frac_json(w.duration), 'per': per}}
         if mutated:
             out['mutated'] = mutated
+        if k == 'sample':
+            api = _api_probes(w, per, np)
+            if api:
+                out['api'] = api
         return out
     if k == 'eq':
         a, b = _guard(lambda: py_build(case['r1'])), _guard(lambda: py_build(case['r2']))
@@ -369,6 +376,41 @@ def run_impl(case):
     if k == 'hist':
         return _run_history(case, np)
     raise ValueError(k)
+
+
+def _api_probes(w, per, np):
+    """Contract questions that need no model (judged by `py_spec` alone, never sent to Coq): is_constant() against
+    constant_value_dict() against constant_value(); unary plus; get_sampled with an output array of the wrong length
+    (must be refused, also on the constant short cut) and with empty time arrays.  -> list of complaints"""
+    bad = []
+    if any(p.get('cv_err') for p in per) or not w.defined_channels:
+        return bad          # constant_value itself raises (known finding C08-chain-parallel-linear-keyerror) / no channel
+    g = _guard(lambda: (bool(w.is_constant()), w.constant_value_dict(), {ch: w.constant_value(ch) for ch in w.defined_channels}))
+    if g[0] != 'ok':
+        return ['is_constant / constant_value_dict / constant_value: %r' % (g,)]
+    ic, cvd, cvs = g[1]
+    if ic != (cvd is not None):
+        bad.append('is_constant() = %r but constant_value_dict() = %r' % (ic, cvd))
+    if cvd is not None and (set(cvd) != set(w.defined_channels) or any(cvs[ch] is None or cvs[ch] != cvd[ch] for ch in cvd)):
+        bad.append('constant_value_dict() = %r disagrees with constant_value per channel %r' % (cvd, cvs))
+    g = _guard(lambda: (+w) is w)
+    if g != ('ok', True):
+        bad.append('+w is not w: %r' % (g,))
+    d = float(w.duration)
+    ts = np.array([0., d / 4, d / 2])
+    for ch in sorted(w.defined_channels, key=str)[:2]:
+        for name, t, o, want in (('longer', ts, np.zeros(5), 'EValue'), ('shorter', ts, np.zeros(1), 'EValue'),
+                                 ('empty times, non-empty', np.array([]), np.zeros(2), 'EValue'),
+                                 ('empty times, empty', np.array([]), np.zeros(0), 'same')):
+            def call():
+                r = w.get_sampled(ch, t, o)
+                return 'same' if r is o else 'other array of length %d' % len(r)
+            g = _guard(call)
+            got = g[1] if g[0] in ('ok', 'err') else repr(g)
+            if got != want:
+                bad.append('get_sampled(%r, %d times, output array: %s [%d]) -> %s, expected %s'
+                           % (ch, len(t), name, len(o), got, want))
+    return bad
 
 
 def _query(w, kind, ch):
@@ -600,6 +642,9 @@ def g_recipe(r):
     if k == 'const':
         return '(RConst %s %s %s)' % (gq(r[1]), gq(r[2]), gch(r[3]))
     if k == 'func':
+        if len(r) > 4 and r[4] and all(F(x) == 0 for x in r[1][1:]):
+            # FunctionWaveform.from_expression with an expression without variables: the recipe MEANS the constant waveform
+            return '(RConst %s %s %s)' % (gq(r[2]), gq(r[1][0] if r[1] else 0), gch(r[3]))
         return '(RFunc %s %s %s)' % (glist(gq, r[1]), gq(r[2]), gch(r[3]))
     if k == 'seq':
         return '(RSeq %s %s)' % (gbool(r[1]), glist(g_recipe, r[2]))
@@ -1203,6 +1248,271 @@ def gen_name_targets(rng):
     return out
 
 
+# ---------------------------------------------------------------------------------------------------------------------
+# round 4: get_subset_for_channels with a subset lying entirely inside the channels only ONE operand / part contributes
+# (class of seed C08-6: every earlier getsubset target asked for a channel of EVERY part)
+
+def _tout(T, cs):
+    """output channels of a transformation recipe applied to the channel set cs (well-formed recipes only)"""
+    k = T[0]
+    if k == 'parallel':
+        return set(cs) | {c for c, _ in T[1]}
+    if k == 'linear':
+        return (set(cs) - set(T[1])) | set(T[2])
+    if k == 'chain':
+        for x in T[1]:
+            cs = _tout(x, cs)
+        return set(cs)
+    return set(cs)
+
+
+def _rout(r):
+    """channels of the waveform a (well-formed) recipe describes"""
+    k = r[0]
+    if k == 'table':
+        return {r[2]}
+    if k in ('const', 'func'):
+        return {r[3]}
+    if k == 'seq':
+        return _rout(r[2][0])
+    if k == 'multi':
+        return set().union(*[_rout(x) for x in r[2]])
+    if k in ('rep', 'functor'):
+        return _rout(r[2])
+    if k == 'trans':
+        return _tout(r[3], _rout(r[2]))
+    if k == 'arith':
+        return _rout(r[2]) | _rout(r[4])
+    if k in ('subset', 'getsubset'):
+        return set(r[2])
+    return _rout(r[1])
+
+def _exclusive_wants(sides):
+    """all request sets that lie inside ONE side's exclusive channels: single channels, the whole side, a proper part"""
+    out = []
+    for s in sides:
+        s = sorted(s)
+        for c in s:
+            out.append([c])
+        if len(s) >= 2:
+            out.append(s)
+        if len(s) >= 3:
+            out.append(s[:2])
+    seen, res = set(), []
+    for w in out:
+        if tuple(w) not in seen:
+            seen.add(tuple(w))
+            res.append(w)
+    return res
+
+
+def _wrap_exclusive(rng, mk, wrap):
+    """`mk(d)` builds the binary / multi-part waveform of duration d; -> (recipe below which the subset is taken, duration)"""
+    d = rng.choice([2, 4]) * Q4
+    opt = rng.random() < 0.5
+    if wrap == 'none':
+        return mk(d), d
+    if wrap == 'seq':
+        return ['seq', opt, [mk(d), mk(d / 2)]], d + d / 2
+    if wrap == 'rep':
+        return ['rep', opt, mk(d), 2], 2 * d
+    if wrap == 'seqrep':
+        return ['seq', opt, [['rep', opt, mk(d / 2), 2], mk(d)]], 2 * d
+    if wrap == 'functor':
+        x = mk(d)
+        return ['functor', opt, x, [[c, rng.choice(['neg', 'abs', 'pos'])] for c in sorted(_rout(x))]], d
+    if wrap == 'neg':
+        return ['neg', mk(d)], d
+    if wrap == 'rev':
+        return [rng.choice(REV), mk(d)], d
+    if wrap == 'subset':
+        x = mk(d)
+        return [rng.choice(['subset', 'getsubset']), ['multi', opt, [x, ['const', fs(d), '1', 0]]], sorted(_rout(x))], d
+    raise ValueError(wrap)
+
+
+EXCL_WRAPS = ['none', 'none', 'seq', 'rep', 'seqrep', 'functor', 'neg', 'rev', 'subset']
+
+
+def gen_exclusive_targets(rng, n):
+    """(recipe, duration, requested channels, tag): `get_subset_for_channels` of arithmetic '+' / '-', multi-channel and
+    transforming waveforms (parallel-added channels, linear outputs), bare and below sequence / repetition / functor /
+    reversal / subset whose subset is taken, where the request lies inside the EXCLUSIVE channels of one operand / part;
+    operands are constant about half of the time so that `constant_value` of the subset is a number"""
+    out = []
+    for i in range(n):
+        cb = rng.choice([0.0, 0.0, 1.0, 0.5])
+        chs = rng.sample([1, 2, 3, 4], rng.choice([2, 3, 3, 4]))
+        shape = ['arith-', 'arith-', 'arith+', 'multi', 'parallel', 'linear', 'arith-nest'][i % 7]
+
+        def side(cs, d, depth=None):
+            cs = sorted(cs)
+            depth = rng.choice([0, 0, 1]) if depth is None else depth
+            return gen_wf(rng, depth, cs, d, cb)
+        if shape.startswith('arith'):
+            k = len(chs)
+            nl = rng.randint(1, k - 1)
+            lonly, rest = chs[:nl], chs[nl:]
+            nb = rng.randint(0, len(rest) - 1)
+            both, ronly = rest[:nb], rest[nb:]
+            op = '+' if shape == 'arith+' else '-'
+            opt = rng.random() < 0.5
+            if shape == 'arith-nest':
+                # x - (y - z): z-only channels carry a double negation; (x - y) - z: y-only channels a single one
+                third = [c for c in (1, 2, 3, 4) if c not in chs][:1] or both[:1] or lonly[:1]
+                if rng.random() < 0.5:
+                    mk = lambda d: ['arith', opt, side(lonly + both, d), '-',   # noqa
+                                    ['arith', rng.random() < 0.5, side(both + ronly, d, 0), rng.choice('-+'), side(sorted(set(third + ronly[:1])), d, 0)]]
+                    sides = [sorted(set(ronly + [c for c in third if c not in lonly + both])), lonly]
+                else:
+                    mk = lambda d: ['arith', opt, ['arith', rng.random() < 0.5, side(lonly + both, d, 0), '-', side(both + ronly, d, 0)],   # noqa
+                                    rng.choice('-+'), side(sorted(set(third + lonly[:1])), d, 0)]
+                    sides = [ronly, [c for c in third if c not in lonly + both + ronly]]
+            else:
+                mk = lambda d: ['arith', opt, side(lonly + both, d), op, side(both + ronly, d)]   # noqa
+                sides = [ronly, lonly]
+        elif shape == 'multi':
+            cut = rng.randint(1, len(chs) - 1)
+            groups = [chs[:cut], chs[cut:]]
+            if len(groups[1]) > 1 and rng.random() < 0.4:
+                groups = [groups[0], groups[1][:1], groups[1][1:]]
+            opt = rng.random() < 0.5
+            mk = lambda d: ['multi', opt, [side(g, d, rng.choice([0, 1, 2])) for g in groups]]   # noqa
+            sides = groups
+        elif shape == 'parallel':
+            cut = rng.randint(1, len(chs) - 1)
+            inner, new = chs[:cut], chs[cut:]
+            over = [rng.choice(inner)] if rng.random() < 0.3 else []     # a parallel constant that overwrites an inner channel
+            opt = rng.random() < 0.5
+            par = ['parallel', [[c, gen_tval(rng)] for c in sorted(new + over)]]
+            T = par if rng.random() < 0.6 else ['chain', [par, [rng.choice(['scale', 'offset']), [[c, gen_tval(rng)] for c in chs]]]]
+            mk = lambda d: ['trans', opt, side(inner, d), T]   # noqa
+            sides = [new, [c for c in inner if c not in over], over]
+        else:
+            outs = chs[:1]
+            fwd = chs[1:]
+            pool = [c for c in (1, 2, 3, 4) if c not in fwd]
+            ins = rng.sample(pool, min(len(pool), rng.choice([1, 2])))
+            opt = rng.random() < 0.5
+            T = ['linear', ins, outs, [[fs(rng.choice([F(1), F(-1), F(2), F(1, 2)])) for _ in ins]]]
+            mk = lambda d: ['trans', opt, side(sorted(set(fwd + ins)), d), T]   # noqa
+            sides = [outs, fwd]
+        wants = _exclusive_wants([s for s in sides if s])
+        if not wants:
+            continue
+        wrap = EXCL_WRAPS[(i // 7) % len(EXCL_WRAPS)]
+        inner, dur = _wrap_exclusive(rng, mk, wrap)
+        allc = _rout(inner)
+        wants = [w for w in wants if set(w) < allc] or wants[:1]
+        picks = wants if len(wants) <= 2 else [wants[0]] + rng.sample(wants[1:], 1)
+        for want in picks:
+            r = ['getsubset', inner, want]
+            if rng.random() < 0.15:
+                r = ['subset', inner, want]
+            elif len(want) > 1 and rng.random() < 0.3:
+                r = ['getsubset', r, want[:1]]
+                want = want[:1]
+            out.append((r, dur, want, 'excl:%s/%s' % (shape, wrap)))
+    return out
+
+
+def exclusive_small(tier):
+    """small scope, exhaustive: channels {1,2,3} distributed over lhs-only / both / rhs-only (both exclusive sides non
+    empty), '+' and '-', plain and optimising constructor, EVERY non-empty proper request set, bare and below a sequence
+    / repetition / reversal / negation; ramps (thorough: and constants)"""
+    import itertools
+    res = []
+    d = F(1, 2)
+    ramp = lambda c, k, dd: ['table', False, c, [['0', fs(c + k), 'h'], [fs(dd), fs(c + k + 2), 'l']]]   # noqa
+    const = lambda c, k, dd: ['const', fs(dd), fs(c + k + F(1, 2)), c]   # noqa
+    assigns = [a for a in itertools.product('LBR', repeat=3) if 'L' in a and 'R' in a]
+    if tier == 'quick':
+        assigns = [('L', 'B', 'R'), ('L', 'R', 'R'), ('L', 'L', 'R')]
+    leafs = [ramp, const] if tier == 'thorough' else [ramp]
+    wraps = ['none', 'seq', 'rep', 'rev', 'neg'] if tier == 'thorough' else ['none', 'seq']
+    for a in assigns:
+        L = [c for c, s in zip((1, 2, 3), a) if s in 'LB']
+        R = [c for c, s in zip((1, 2, 3), a) if s in 'BR']
+        for leaf in leafs:
+            def mk(dd, k):
+                ms = lambda cs, kk: ['multi', False, [leaf(c, kk, dd) for c in cs]] if len(cs) > 1 else leaf(cs[0], kk, dd)   # noqa
+                return lambda op, opt: ['arith', opt, ms(L, k), op, ms(R, k + 4)]
+            for op in '+-':
+                for opt in (False, True):
+                    for wrap in wraps:
+                        x = mk(d, 0)(op, opt)
+                        if wrap == 'seq':
+                            x, dur = ['seq', opt, [x, mk(d, 1)(op, opt)]], 2 * d
+                        elif wrap == 'rep':
+                            x, dur = ['rep', opt, x, 2], 2 * d
+                        elif wrap == 'rev':
+                            x, dur = ['fromrev' if opt else 'rev', x], d
+                        elif wrap == 'neg':
+                            x, dur = ['neg', x], d
+                        else:
+                            dur = d
+                        for m in (1, 2):
+                            for want in itertools.combinations((1, 2, 3), m):
+                                res.append((['getsubset', x, list(want)], dur, list(want), 'excl-small:%s%s' % (op, wrap)))
+    return res
+
+
+def gen_ctor_targets(rng, n):
+    """constructor paths the coverage audit (round 4) found unreached: FunctionWaveform with a constant expression (plain:
+    sampled by np.full_like / written into a supplied array; `from_expression`: becomes a ConstantWaveform the optimising
+    constructors fold), from_sequence / from_parallel / SequenceWaveform / MultiChannelWaveform of ONE part, and a plain
+    SubsetWaveform over an all-constant waveform (its constant_value_dict is a dict) below every optimising constructor"""
+    out = []
+    for i in range(n):
+        d = rng.choice([2, 4]) * Q4
+        c, c2 = rng.sample([0, 1, 2, 3, 4], 2)
+        v = lambda: fs(rng.choice(VOLT))   # noqa
+        what = ['func0', 'func0x', 'single', 'subconst'][i % 4]
+
+        def leaf(dd, ch=None):
+            ch = c if ch is None else ch
+            if what == 'func0':
+                return ['func', rng.choice([[v()], [v(), '0'], []]), fs(dd), ch]
+            if what == 'func0x':
+                return ['func', rng.choice([[v()], [v(), '0'], [], [v(), '1/2']]), fs(dd), ch, True]
+            if what == 'single':
+                x = gen_leaf(rng, ch, dd)
+                k = rng.choice(['seq', 'multi'])
+                return [k, rng.random() < 0.5, [x if rng.random() < 0.7 else [k, rng.random() < 0.5, [x]]]]
+            other = [ch2 for ch2 in range(5) if ch2 != ch]
+            m = ['multi', rng.random() < 0.5, [['const', fs(dd), v(), ch]] + [['const', fs(dd), v(), o] for o in rng.sample(other, rng.choice([1, 2]))]]
+            return ['subset', m, [ch]]
+        wrap = ['none', 'seq', 'rep', 'arith', 'trans', 'functor', 'multi', 'rev', 'getsubset', 'seqmix'][(i // 4) % 10]
+        opt = rng.random() < 0.75
+        chans, dur = [c], d
+        if wrap == 'none':
+            r = leaf(d)
+        elif wrap == 'seq':
+            r, dur = ['seq', opt, [leaf(d), leaf(d / 2)]], d + d / 2
+        elif wrap == 'seqmix':
+            r, dur = ['seq', opt, [leaf(d), nonconst_leaf(rng, c, d), leaf(d)]], 3 * d
+        elif wrap == 'rep':
+            r, dur = ['rep', opt, leaf(d), rng.choice([1, 2, 3])], None
+            dur = d * r[3]
+        elif wrap == 'arith':
+            r = ['arith', opt, leaf(d), rng.choice('+-'), rng.choice([leaf(d), ['const', fs(d), v(), c], leaf(d, c2)])]
+            chans = sorted(_rout(r))
+        elif wrap == 'trans':
+            r = ['trans', opt, leaf(d), rng.choice([['scale', [[c, gen_tval(rng)]]], ['offset', [[c, gen_tval(rng)]]],
+                                                    ['parallel', [[c2, gen_tval(rng)]]], ['id']])]
+            chans = sorted(_rout(r))
+        elif wrap == 'functor':
+            r = ['functor', opt, leaf(d), [[c, rng.choice(['neg', 'abs', 'pos'])]]]
+        elif wrap == 'multi':
+            r, chans = ['multi', opt, [leaf(d), rng.choice([leaf(d, c2), gen_leaf(rng, c2, d)])]], sorted([c, c2])
+        elif wrap == 'rev':
+            r = [rng.choice(REV), leaf(d)]
+        else:
+            r = ['getsubset', ['multi', opt, [leaf(d), leaf(d, c2)]], [c]]
+        out.append((r, dur, chans, 'ctor:%s/%s' % (what, wrap)))
+    return out
+
+
 def malformed_recipes(rng):
     c = lambda d, v, ch: ['const', fs(d), fs(v), ch]   # noqa
     t = lambda ch, ents, val=True: ['table', val, ch, [[fs(a), fs(b), i] for a, b, i in ents]]   # noqa
@@ -1235,6 +1545,11 @@ def malformed_recipes(rng):
         ['trans', False, t(1, [(0, 0, 'h'), (1, 1, 'l')]), ['parallel', []]], ['trans', True, c(1, 1, 1), ['parallel', []]],
         ['trans', True, t(1, [(0, 0, 'h'), (1, 1, 'l')]), ['chain', []]], ['trans', True, c(1, 1, 1), ['chain', []]],
         ['functor', False, c(1, 1, 1), []], ['functor', True, c(1, 1, 1), []],
+        # round 4 (coverage audit): no parts at all; a negative time after a valid second entry; three parts, one too long
+        ['multi', False, []], ['multi', True, []], ['seq', True, []],
+        t(1, [(0, 1, 'h'), (1, 2, 'l'), (-1, 3, 'l')]), t(1, [(0, 1, 'h'), (1, 2, 'l'), (-1, 3, 'l')], False),
+        t(1, [(0, 1, 'h'), (-1, 2, 'l'), (1, 3, 'l')]),
+        ['multi', False, [c(1, 1, 1), c(1, 2, 2), c(2, 3, 3)]], ['multi', True, [c(1, 1, 1), c(2, 2, 2), c(1, 3, 3)]],
     ]
     return out
 
@@ -1564,6 +1879,26 @@ def gen_cases(rng, tier, ctx):
         add_sample(r, dur, chans)
         cases.append(dict(gen_alias_history(rng, dur, chans), r=r))
     cases += gen_dec_cases(rng, tier)
+    # ---- round 4 families (after everything else: the earlier cases of a seed stay what they were) ----
+    # (e) get_subset_for_channels with a request inside ONE operand's / part's exclusive channels
+    for r, dur, chans, tag in gen_exclusive_targets(rng, 63 if tier == 'quick' else 1260):
+        gs = grids_for(rng, dur)
+        for gk in ('off', 'on') if tier == 'quick' else ('off', 'on', 'end'):
+            cases.append({'kind': 'sample', 'grid_kind': gk, 'r': r, 'grid': [fs(t) for t in gs[gk]], 'chans': sorted(chans),
+                          'family': tag})
+    # (f) constructor paths found unreached by the coverage audit
+    for r, dur, chans, tag in gen_ctor_targets(rng, 80 if tier == 'quick' else 1200):
+        gs = grids_for(rng, dur)
+        for gk in ('off', 'end') if tier == 'quick' else ('off', 'on', 'end'):
+            cases.append({'kind': 'sample', 'grid_kind': gk, 'r': r, 'grid': [fs(t) for t in gs[gk]], 'chans': sorted(chans),
+                          'family': tag})
+        if tier != 'quick' or rng.random() < 0.3:
+            cases.append(dict(gen_alias_history(rng, dur, chans), r=r))
+    for r, dur, chans, tag in exclusive_small(tier):
+        n = int(dur / Q4)
+        grid = sorted({i * Q4 for i in range(n)} | {i * Q4 + F(1, 8) for i in range(n)} | {dur - F(1, 16)})
+        cases.append({'kind': 'sample', 'grid_kind': 'mixed', 'r': r, 'grid': [fs(t) for t in grid], 'chans': sorted(chans),
+                      'family': tag})
     return cases
 
 
@@ -1685,6 +2020,8 @@ def histogram_keys(case, obs):
         keys.append('shared-objects')
     if case.get('sparse'):
         keys.append('sparse:' + case['sparse'])
+    if case.get('family'):
+        keys.append('family:' + case['family'].split('/')[0])
     if k == 'hist':
         keys.append('hist-style:' + case.get('style', 'classic'))
         if case.get('arr', 'plain') != 'plain':
@@ -1961,6 +2298,8 @@ def py_spec(case, obs):
         return None
     if obs.get('mutated'):
         return 'the sampler changed the content of the time array it was given'
+    if obs.get('api'):
+        return 'waveform API contract: ' + '; '.join(obs['api'][:3])
     if case['kind'] == 'eq' and obs.get('built') and obs.get('eq') and obs.get('same') is False:
         return 'two waveforms compare equal but differ in channels / duration / constant_value / samples'
     if case['kind'] == 'hist':
